@@ -53,6 +53,12 @@ type ctl struct {
 	// store (offset, value); metaRaw is the unwrapped meta page (read-only use by the harness)
 	metaPark func(off int, v uint64)
 	metaRaw  page.MappedPage
+
+	// index-position mode (indexpos.go): page id / offset of the latest PutUint64 into an index page
+	// (the first of the three item stores of persistMetaOfMessage)
+	idxStoreSeen bool
+	idxStorePage int64
+	idxStoreOff  int
 }
 
 func newCtl(root string) *ctl { return &ctl{root: root, hw: map[string]int{}} }
@@ -236,6 +242,11 @@ func (p *wpage) PutUint64(v uint64, off int) {
 		p.c.metaPark(off, v)
 	}
 	p.MappedPage.PutUint64(v, off)
+	if p.kind == "index" {
+		p.c.mu.Lock()
+		p.c.idxStoreSeen, p.c.idxStorePage, p.c.idxStoreOff = true, p.id, off
+		p.c.mu.Unlock()
+	}
 	p.c.note(p, off, 8)
 	p.c.afterStore(1)
 }
